@@ -65,6 +65,7 @@ type Sched struct {
 	spawned    map[string]int
 	parents    map[uint64]uint64
 	unnamed    []*Thread
+	rootG      uint64 // the explorer's own goroutine
 	// Fine: releasing a lock is a scheduling point too (the thread parks right after Unlock /
 	// RUnlock), so that accesses a thread makes after leaving a critical section can be ordered
 	// after another thread's critical section. Off by default: it doubles the points per lock.
@@ -94,8 +95,11 @@ func Epoch() uint64 { return epoch.Load() }
 func Install(s *Sched) { cur.Store(s) }
 func Current() *Sched  { return cur.Load() }
 
+// New creates a scheduler owned by the calling goroutine (the explorer): that goroutine is never
+// parked. Whatever it calls while the threads are quiescent - observation hooks that take the server
+// lock, container code that carries race-directed points - runs straight through.
 func New() *Sched {
-	return &Sched{threads: map[uint64]*Thread{}, byName: map[string]*Thread{}, tags: map[uint64]string{}, observe: map[uint64]bool{}, spawned: map[string]int{}, parents: map[uint64]uint64{}}
+	return &Sched{rootG: goidasm.ID(), threads: map[uint64]*Thread{}, byName: map[string]*Thread{}, tags: map[uint64]string{}, observe: map[uint64]bool{}, spawned: map[string]int{}, parents: map[uint64]uint64{}}
 }
 
 // entryFunc names the function the current goroutine was started with.
@@ -287,7 +291,7 @@ const RaceHitCap = 4
 // Point parks the calling goroutine until the explorer schedules it.
 func Point(kind string) {
 	s := cur.Load()
-	if s == nil {
+	if s == nil || goidasm.ID() == s.rootG {
 		return
 	}
 	if kind == "race" {
@@ -300,7 +304,9 @@ func Point(kind string) {
 			t.raceHits = map[uintptr]int{}
 		}
 		t.raceHits[pc[0]]++
-		over := t.raceHits[pc[0]] > RaceHitCap
+		// observer threads are harness pollers that read library state under the harness' own lock:
+		// parking them inside the library would wedge the explorer on that lock
+		over := t.raceHits[pc[0]] > RaceHitCap || t.Observer
 		s.mu.Unlock()
 		if over {
 			return
@@ -316,6 +322,9 @@ func Lock(ls *LockState) {
 	s := cur.Load()
 	if s == nil {
 		panic("verifsched.Lock without scheduler")
+	}
+	if goidasm.ID() == s.rootG {
+		return // the explorer reads shared state while every thread is parked
 	}
 	s.park("lock", ls, false)
 	s.mu.Lock()
@@ -337,11 +346,17 @@ func RLock(ls *LockState) {
 	if s == nil {
 		panic("verifsched.RLock without scheduler")
 	}
+	if goidasm.ID() == s.rootG {
+		return
+	}
 	s.park("rlock", ls, true)
 }
 
 func Unlock(ls *LockState) {
 	s := cur.Load()
+	if goidasm.ID() == s.rootG {
+		return
+	}
 	s.mu.Lock()
 	if !ls.Held {
 		s.Violations = append(s.Violations, "unlock of an unlocked mutex at "+callSite(2))
@@ -356,6 +371,9 @@ func Unlock(ls *LockState) {
 
 func RUnlock(ls *LockState) {
 	s := cur.Load()
+	if goidasm.ID() == s.rootG {
+		return
+	}
 	s.mu.Lock()
 	ls.Readers--
 	fine := s.Fine
